@@ -6,8 +6,10 @@
    delay the exit through the duality-gap rule, it cannot falsify the certificate.
    The convergence of the iteration (that the gap rule is reached within max_iter, that PCG returns
    a usable direction, that the line search accepts) is NOT a theorem: see meta/C08.json. *)
-From Coq Require Import List ZArith Reals Lra Bool.
-From SC Require Import Base.Num C08.Model C08.ProofsBase C08.ProofsDual C08.ProofsFit C08.ProofsGap C08.ProofsEnd C08.ProofsExamples C08.ProofsExamples2.
+From Coquelicot Require Import Coquelicot.
+From Coq Require Import List ZArith Reals Lra Bool Floats.
+From SC Require Import Base.Num C08.Model C08.ProofsBase C08.ProofsDual C08.ProofsFit C08.ProofsGap C08.ProofsEnd C08.ProofsExamples C08.ProofsExamples2
+  C08.ProofsNewton C08.ProofsDeriv C08.ProofsNewtonExamples.
 Import ListNotations.
 Local Open Scope R_scope.
 
@@ -257,3 +259,100 @@ Example C08_enet_fit_certified_sat : forall mk : list (list R) -> R -> solver_t 
   let '(X2, y2, gamma) := augment ROps X y (2 * (1 - 1) * nf) in
   optimize_gen ROps (mk X2 (2 * 1 * nf * gamma)) X2 y2 (2 * 1 * nf * gamma) 1 (1 / 10) = Some ([0], ExitGap, 2).
 Proof. exact ex_enet_fit_hyps. Qed.
+
+(* ------------------------------------------------------------------------------------------- *)
+(* 5. the Newton step and the objective it minimises                                             *)
+(* ------------------------------------------------------------------------------------------- *)
+(* The barrier objective is the model's `phi_of` (the code's `phi` of the line search):
+     phi(w,u) = |Xw - yc|^2 + lam * sum u - (1/t) * sum_i [ ln(u_i - w_i) + ln(u_i + w_i) ].
+   `lin h w dw` is the point w + h*dw.  The code stores  grad = - (gradient of phi)  and solves
+   H dxu = grad, so  grad . dxu > 0  is the descent condition (gradient . dxu < 0). *)
+
+(* The model's `nw_grad` (built from 2 X^T z, q1, q2 as coded) is minus the gradient of phi at every
+   strictly interior point: the derivative of phi along EVERY line through (w,u) is - grad . (dw,du)
+   (coordinate directions give the partial derivatives). *)
+Theorem C08_grad_is_gradient : forall (X : list (list R)) (yc : list R) (lam t : R) (w u : list R) (p : nat)
+    (dw du : list R),
+  length w = p -> length u = p -> length yc = length X -> strictly_interior w u -> t <> 0 ->
+  length dw = p -> length du = p ->
+  is_derive (fun h => phi_of ROps X yc lam t (lin h w dw) (lin h u du)) 0
+            (- Rdot (nw_grad (newton_system ROps X lam t w u (residual ROps X yc w))) (dw ++ du)).
+Proof. intros. apply (grad_is_gradient X yc lam t w u p); assumption. Qed.
+
+(* The operator applied by the model's `ip_mat_vec` (the code's mat_vec_mul:
+   [[2 X^T X + D1, D2], [D2, D1]] with d1, d2 from q1, q2) is the Hessian of phi: the derivative of
+   (gradient . e) along every line with direction d is  (H d) . e ; and H is symmetric. *)
+Theorem C08_hessian_is_hessian : forall (X : list (list R)) (yc : list R) (lam t : R) (w u : list R) (p : nat)
+    (dw du ew eu : list R),
+  length w = p -> length u = p -> length yc = length X -> strictly_interior w u -> t <> 0 ->
+  length dw = p -> length du = p -> length ew = p -> length eu = p ->
+  let H := ip_mat_vec ROps p (gram ROps p X) (newton_system ROps X lam t w u (residual ROps X yc w)) in
+  is_derive (fun h => - Rdot (nw_grad (newton_system ROps X lam t (lin h w dw) (lin h u du)
+                                         (residual ROps X yc (lin h w dw)))) (ew ++ eu)) 0
+            (Rdot (H (dw ++ du)) (ew ++ eu)) /\
+  Rdot (H (dw ++ du)) (ew ++ eu) = Rdot (H (ew ++ eu)) (dw ++ du).
+Proof.
+  intros X yc lam t w u p dw du ew eu Hw Hu Hy Hint Ht Hdw Hdu Hew Heu H. unfold H.
+  rewrite !(hessian_form X lam t w u _ p Hw Hu) by assumption. split.
+  - apply (hessian_is_hessian X yc lam t w u p); assumption.
+  - apply hform_sym.
+Qed.
+
+(* H is positive definite at every strictly interior point when t > 0. *)
+Theorem C08_hessian_spd : forall (X : list (list R)) (lam t : R) (w u z : list R) (p : nat) (dw du : list R),
+  length w = p -> length u = p -> strictly_interior w u -> 0 < t -> length dw = p -> length du = p ->
+  let H := ip_mat_vec ROps p (gram ROps p X) (newton_system ROps X lam t w u z) in
+  0 <= Rdot (H (dw ++ du)) (dw ++ du) /\
+  (Rdot (H (dw ++ du)) (dw ++ du) = 0 -> dw = repeat 0 p /\ du = repeat 0 p).
+Proof. intros. apply hessian_spd; assumption. Qed.
+
+(* The EXACT Newton direction (H dxu = grad) is a descent direction unless the gradient vanishes.
+   (An inexact PCG solution need not be: that is the case the null step of e30c76a handles.) *)
+Theorem C08_exact_newton_is_descent : forall (X : list (list R)) (lam t : R) (w u z : list R) (p : nat) (dw du : list R),
+  length w = p -> length u = p -> strictly_interior w u -> 0 < t -> length dw = p -> length du = p ->
+  let nw := newton_system ROps X lam t w u z in
+  ip_mat_vec ROps p (gram ROps p X) nw (dw ++ du) = nw_grad nw ->
+  0 < Rdot (nw_grad nw) (dw ++ du) \/
+  (dw = repeat 0 p /\ du = repeat 0 p /\
+   forall ew eu, length ew = p -> length eu = p -> Rdot (nw_grad nw) (ew ++ eu) = 0).
+Proof. intros. apply exact_newton_is_descent; assumption. Qed.
+
+Example C08_newton_sat :
+  strictly_interior [0] [1] /\
+  let nw := newton_system ROps [[1]] 1 1 [0] [1] (residual ROps [[1]] [1] [0]) in
+  ip_mat_vec ROps 1 (gram ROps 1 [[1]]) nw ([1 / 2] ++ [1 / 2]) = nw_grad nw /\ nw_grad nw = [2; 1].
+Proof. split; [exact ex_interior | exact ex_newton_solution]. Qed.
+
+(* The preconditioner: `ip_precond` (solve_preconditioner) is the exact inverse of the block-diagonal
+   matrix M = [[diag(prb), D2], [D2, D1]] (2 X^T X replaced by 2 I) whenever every determinant
+   prs_i = prb_i*d1_i - d2_i^2 is non-zero; at a strictly interior point with t > 0 it equals
+   2 d1 + 4 q1^2 q2^2 / t^2 > 0 in exact arithmetic. *)
+Theorem C08_preconditioner_inverse : forall (X : list (list R)) (lam t : R) (w u z : list R) (p : nat) (bw bu : list R),
+  length w = p -> length u = p -> length bw = p -> length bu = p ->
+  let nw := newton_system ROps X lam t w u z in
+  ((forall i, (i < p)%nat -> nth i (nw_prs nw) 0 <> 0) ->
+   blockdiag_apply p nw (ip_precond ROps p nw (bw ++ bu)) = bw ++ bu) /\
+  (forall i, (i < p)%nat ->
+     nth i (nw_prs nw) 0 = (2 + d1i t w u i) * d1i t w u i - d2i t w u i * d2i t w u i) /\
+  (strictly_interior w u -> 0 < t -> forall i, (i < p)%nat -> 0 < nth i (nw_prs nw) 0).
+Proof.
+  intros X lam t w u z p bw bu Hw Hu Hbw Hbu nw. split; [|split].
+  - apply preconditioner_inverse; assumption.
+  - apply prs_nth; assumption.
+  - intros Hint Ht. apply prs_positive; assumption.
+Qed.
+
+(* The cancellation behind the known finding lasso-large-scale-err, in binary64: the code evaluates
+   the determinant as prb*d1 - d2*d2 with prb = 2 + d1.  At a strictly interior point whose distance
+   to the boundary is 2^-27 relative (here u = 1, w = 1 - 2^-27, t = 1) q2^2 = 2^54 swallows q1^2 and
+   the 2: d1 = -d2 = prb in binary64 and the computed determinant is exactly 0 (over R it is positive
+   by C08_preconditioner_inverse), so `solve_preconditioner` divides by zero and the direction is NaN.
+   In general: prs is computed <= 0 as soon as (q1/q2)^2 (or (q2/q1)^2) and 2/d1 are below half an ulp,
+   i.e. (u-|w|)/(u+|w|) <~ 2^-27 and t*(u-|w|)^2 <~ 2^-53 — reached when lambda*t*|w| >~ 2^26
+   (central path: u-|w| ~ 1/(lambda t)), the regime n*alpha >~ 1e7..1e8 of the finding. *)
+Example C08_prs_cancels_in_binary64 :
+  (let w := [1 - 0x1p-27] in let u := [1] in
+   interior FOps w u = true /\
+   nw_prs (newton_system FOps [[1]] 1 1 w u [0]) = [0] /\
+   nw_prb (newton_system FOps [[1]] 1 1 w u [0]) = nw_d1 (newton_system FOps [[1]] 1 1 w u [0]))%float.
+Proof. exact prs_cancels_in_binary64. Qed.
